@@ -1,5 +1,478 @@
+/-
+C14 — handshake message encoding and decoding are inverse, strict and total.
+
+Property theorems only (helpers: `Gotlcp.Lemmas.Codec*`).  Every statement quantifies over all
+field values / all byte strings.  The models (`Gotlcp.Model.Codec`, `…CodecDtlcp`) are
+instantiated with the regenerated source facts (`Model.Codec.codesT`, `codesD`); the spec
+(`Gotlcp.Spec.CodecSpec`: `wf…` ranges, `shape`, strict decoders) is written from the standard.
+
+Per message kind K and stack S:
+  C14_roundtrip_K_S   fields within the standard's ranges encode, the library's decoder returns
+                      them, and the spec's strict decoder accepts the encoding with the same
+                      fields (the encoding is the canonical one);
+  C14_total_K_S       the decoder returns accept/reject for every byte string, never panics
+                      (hand-indexed Go code is modelled with checked accessors);
+  C14_strict_K_S      an accepted byte string has the spec's `shape`: header length (DTLCP: and
+                      fragment fields) agree with the data, the body is exactly the grammar;
+  C14_reencode_K_S    whatever the spec's strict decoder accepts, the library decodes to the same
+                      fields, those fields are within range and re-encode to the same bytes.
+-/
 import Gotlcp.Lemmas.Codec
+import Gotlcp.Lemmas.CodecDtlcp
 import Gotlcp.Model.CodecParams
+
+set_option linter.unusedSimpArgs false
+set_option linter.unusedVariables false
+
 namespace Gotlcp.Props.C14
-theorem C14_facts : Gotlcp.Facts.missing = [] := by decide
+open Gotlcp Gotlcp.Wire Gotlcp.Wire.Msg
+open Gotlcp.Model.Codec
+open Gotlcp.Lemmas.Codec
+open Gotlcp.Spec.Codec (Stack Kind)
+
+/-- the regenerated facts every theorem below relies on -/
+theorem C14_facts :
+    Facts.missing = [] ∧
+    -- message type codes are the standard's
+    [codesT.tClientHello, codesT.tServerHello, codesT.tCertificate, codesT.tServerKeyExchange,
+      codesT.tCertificateRequest, codesT.tServerHelloDone, codesT.tCertificateVerify,
+      codesT.tClientKeyExchange, codesT.tFinished] = [1, 2, 11, 12, 13, 14, 15, 16, 20] ∧
+    [codesD.tClientHello, codesD.tServerHello, codesD.tHelloVerifyRequest, codesD.tCertificate,
+      codesD.tServerKeyExchange, codesD.tCertificateRequest, codesD.tServerHelloDone,
+      codesD.tCertificateVerify, codesD.tClientKeyExchange, codesD.tFinished] =
+      [1, 2, 3, 11, 12, 13, 14, 15, 16, 20] ∧
+    -- header lengths and the literals derived from them in the hand-indexed code
+    codesT.hl = 4 ∧ codesD.hl = 12 ∧
+    Facts.tlcp.codecSkips = [codesT.hl, codesT.hl, codesT.hl, 1] ∧
+    [Facts.tlcp.codecMinLen_certificate, Facts.tlcp.codecMinLen_serverKeyExchange,
+      Facts.tlcp.codecMinLen_certificateRequest, Facts.tlcp.codecMinLen_serverHelloDone,
+      Facts.tlcp.codecMinLen_clientKeyExchange] = [codesT.hl + 3, codesT.hl, codesT.hl + 1, codesT.hl, codesT.hl] ∧
+    [Facts.dtlcp.codecMinLen_certificate, Facts.dtlcp.codecMinLen_serverKeyExchange,
+      Facts.dtlcp.codecMinLen_certificateRequest, Facts.dtlcp.codecMinLen_serverHelloDone,
+      Facts.dtlcp.codecMinLen_clientKeyExchange] = [codesD.hl + 3, codesD.hl, codesD.hl + 1, codesD.hl, codesD.hl] ∧
+    [Facts.tlcp.codecMinLen_certificate_op, Facts.tlcp.codecMinLen_serverKeyExchange_op,
+      Facts.tlcp.codecMinLen_certificateRequest_op, Facts.tlcp.codecMinLen_serverHelloDone_op,
+      Facts.tlcp.codecMinLen_clientKeyExchange_op] = ["<", "<", "<", "==", "<"] ∧
+    [Facts.dtlcp.codecMinLen_certificate_op, Facts.dtlcp.codecMinLen_serverKeyExchange_op,
+      Facts.dtlcp.codecMinLen_certificateRequest_op, Facts.dtlcp.codecMinLen_serverHelloDone_op,
+      Facts.dtlcp.codecMinLen_clientKeyExchange_op] = ["<", "<", "<", "<", "<"] ∧
+    -- hello constants
+    Facts.tlcp.codecRandomLens = [32, 32, 32, 32] ∧ Facts.dtlcp.codecRandomLens = [32, 32, 32, 32] ∧
+    codesT.hashLen = 32 ∧ codesD.hashLen = 32 ∧
+    [codesT.extServerName, codesT.extTrustedCAKeys, codesT.extStatusRequest, codesT.extSupportedCurves,
+      codesT.extSignatureAlgorithms, codesT.extALPN, codesT.extClientID] = [0, 3, 5, 10, 13, 16, 66] ∧
+    [codesD.extServerName, codesD.extTrustedCAKeys, codesD.extStatusRequest, codesD.extSupportedCurves,
+      codesD.extSignatureAlgorithms, codesD.extALPN, codesD.extClientID] = [0, 3, 5, 10, 13, 16, 66] ∧
+    Facts.tlcp.extensionSupportedGroups = Facts.tlcp.extensionSupportedCurves ∧
+    Facts.tlcp.extensionSignatureAlgorithm = Facts.tlcp.extensionSignatureAlgorithms ∧
+    Facts.dtlcp.extensionSupportedGroups = Facts.dtlcp.extensionSupportedCurves ∧
+    Facts.dtlcp.extensionSignatureAlgorithm = Facts.dtlcp.extensionSignatureAlgorithms ∧
+    [codesT.taPreAgreed, codesT.taX509Name, codesT.taKeyHash, codesT.taCertHash] = [0, 2, 4, 5] ∧
+    [codesD.taPreAgreed, codesD.taX509Name, codesD.taKeyHash, codesD.taCertHash] = [0, 2, 4, 5] ∧
+    -- curve / signature-algorithm lists are not re-made inside the item loop (F28)
+    codesT.curvesMode = 0 ∧ codesT.sigAlgsMode = 0 ∧ codesD.curvesMode ≤ 1 ∧ codesD.sigAlgsMode ≤ 1 ∧
+    -- every unmarshal starts with the complete-message guard (F18a, F18b)
+    (∀ t ∈ [1, 2, 11, 12, 13, 14, 15, 16, 20], codesT.complete.contains t = true) ∧
+    (∀ t ∈ [1, 2, 3, 11, 12, 13, 14, 15, 16, 20], codesD.complete.contains t = true) ∧
+    Facts.tlcp.codecHasCompleteHelper = true ∧ Facts.dtlcp.codecHasCompleteHelper = true := by
+  decide
+
+/-! ## TLCP -/
+
+/-! ### Finished -/
+
+theorem C14_roundtrip_finished_tlcp (m : Blob) (hw : Spec.Codec.wfBlob .finished m = true) :
+    ∃ b, encFinished codesT m = some b ∧ unmarshalFinished codesT b = .ok m ∧
+      Spec.Codec.strictBlob .tlcp .finished b = some (zeroH, m) := by
+  have hl : m.data.length < 16777216 := by
+    have : m.data.length = 12 := by simpa [Spec.Codec.wfBlob] using hw
+    omega
+  obtain ⟨h1, h2⟩ := rt_finished codesT m hl
+  exact ⟨_, h1, by rw [unmarshalFinished, guardT_pass _ _ hl]; exact h2, complete_finished codesT rfl m hw⟩
+
+example : Spec.Codec.wfBlob .finished ⟨[1, 2, 3, 4, 5, 6, 7, 8, 9, 10, 11, 12]⟩ = true := by decide
+
+theorem C14_total_finished_tlcp (b : Bytes) : unmarshalFinished codesT b ≠ .panic :=
+  guardT_ne_panic _ _ _ (total_finished b)
+
+theorem C14_strict_finished_tlcp (b : Bytes) (m : Blob) (h : unmarshalFinished codesT b = .ok m) :
+    Spec.Codec.shape .tlcp .finished b = true :=
+  strict_finished (framed_of_guardT (by decide) h).1
+
+theorem C14_reencode_finished_tlcp (b : Bytes) (h : DHdr) (m : Blob)
+    (hs : Spec.Codec.strictBlob .tlcp .finished b = some (h, m)) :
+    encFinished codesT m = some b ∧ unmarshalFinished codesT b = .ok m ∧ Spec.Codec.wfBlob .finished m = true := by
+  obtain ⟨h1, h2, h3⟩ := canon_finished codesT rfl hs
+  obtain ⟨hd, body, hsh⟩ := strictBlob_header hs
+  exact ⟨h1, by rw [unmarshalFinished, guardT_of_strictHeader codesT (t := codesT.tFinished) rfl hsh]; exact h2, h3⟩
+
+/-! ### ServerHelloDone -/
+
+theorem C14_roundtrip_serverHelloDone_tlcp :
+    ∃ b, encServerHelloDone codesT = some b ∧ unmarshalServerHelloDone codesT b = .ok () ∧
+      Spec.Codec.strictServerHelloDone .tlcp b = some (zeroH, ()) := by
+  obtain ⟨h1, h2⟩ := rt_serverHelloDone codesT
+  refine ⟨_, h1, ?_, complete_serverHelloDone codesT rfl⟩
+  have := guardT_pass codesT codesT.tServerHelloDone (body := []) (by simp) (decServerHelloDone [u8 codesT.tServerHelloDone, 0, 0, 0])
+  rw [unmarshalServerHelloDone]
+  exact this.trans h2
+
+theorem C14_total_serverHelloDone_tlcp (b : Bytes) : unmarshalServerHelloDone codesT b ≠ .panic :=
+  guardT_ne_panic _ _ _ (total_serverHelloDone b)
+
+theorem C14_strict_serverHelloDone_tlcp (b : Bytes) (h : unmarshalServerHelloDone codesT b = .ok ()) :
+    Spec.Codec.shape .tlcp .serverHelloDone b = true := by
+  obtain ⟨hk, hf⟩ := framed_of_guardT (by decide) h
+  exact strict_serverHelloDone hk hf
+
+theorem C14_reencode_serverHelloDone_tlcp (b : Bytes) (h : DHdr)
+    (hs : Spec.Codec.strictServerHelloDone .tlcp b = some (h, ())) :
+    encServerHelloDone codesT = some b ∧ unmarshalServerHelloDone codesT b = .ok () := by
+  obtain ⟨h1, h2⟩ := canon_serverHelloDone codesT rfl hs
+  obtain ⟨hd, body, hsh⟩ := strictServerHelloDone_header hs
+  exact ⟨h1, by rw [unmarshalServerHelloDone, guardT_of_strictHeader codesT (t := codesT.tServerHelloDone) rfl hsh]; exact h2⟩
+
+/-! ### CertificateVerify -/
+
+theorem C14_roundtrip_certificateVerify_tlcp (m : Blob) (hw : Spec.Codec.wfBlob .certificateVerify m = true) :
+    ∃ b, encCertificateVerify codesT m = some b ∧ unmarshalCertificateVerify codesT b = .ok m ∧
+      Spec.Codec.strictBlob .tlcp .certificateVerify b = some (zeroH, m) := by
+  have hl : m.data.length < 65536 := by simpa [Spec.Codec.wfBlob] using hw
+  obtain ⟨h1, h2⟩ := rt_certificateVerify codesT m hl
+  have hc := complete_certificateVerify codesT rfl m hw
+  obtain ⟨hd, body, hsh⟩ := strictBlob_header hc
+  exact ⟨_, h1, by rw [unmarshalCertificateVerify, guardT_of_strictHeader codesT (t := codesT.tCertificateVerify) rfl hsh]; exact h2, hc⟩
+
+example : Spec.Codec.wfBlob .certificateVerify ⟨[0x30, 0x44, 1, 2, 3]⟩ = true := by decide
+
+theorem C14_total_certificateVerify_tlcp (b : Bytes) : unmarshalCertificateVerify codesT b ≠ .panic :=
+  guardT_ne_panic _ _ _ (total_certificateVerify b)
+
+theorem C14_strict_certificateVerify_tlcp (b : Bytes) (m : Blob) (h : unmarshalCertificateVerify codesT b = .ok m) :
+    Spec.Codec.shape .tlcp .certificateVerify b = true := by
+  obtain ⟨hk, hf⟩ := framed_of_guardT (by decide) h
+  exact strict_certificateVerify hk hf
+
+theorem C14_reencode_certificateVerify_tlcp (b : Bytes) (h : DHdr) (m : Blob)
+    (hs : Spec.Codec.strictBlob .tlcp .certificateVerify b = some (h, m)) :
+    encCertificateVerify codesT m = some b ∧ unmarshalCertificateVerify codesT b = .ok m ∧
+      Spec.Codec.wfBlob .certificateVerify m = true := by
+  obtain ⟨h1, h2, h3⟩ := canon_certificateVerify codesT rfl hs
+  obtain ⟨hd, body, hsh⟩ := strictBlob_header hs
+  exact ⟨h1, by rw [unmarshalCertificateVerify, guardT_of_strictHeader codesT (t := codesT.tCertificateVerify) rfl hsh]; exact h2, h3⟩
+
+/-! ### ClientKeyExchange, ServerKeyExchange (opaque bodies) -/
+
+theorem C14_roundtrip_clientKeyExchange_tlcp (m : Blob) (hw : Spec.Codec.wfBlob .clientKeyExchange m = true) :
+    ∃ b, encKeyMsg codesT.tClientKeyExchange m = some b ∧ unmarshalClientKeyExchange codesT b = .ok m ∧
+      Spec.Codec.strictBlob .tlcp .clientKeyExchange b = some (zeroH, m) := by
+  have hl : m.data.length < 16777216 := by simpa [Spec.Codec.wfBlob] using hw
+  obtain ⟨h1, h2⟩ := rt_clientKeyExchange codesT.tClientKeyExchange m hl
+  exact ⟨_, h1, by rw [unmarshalClientKeyExchange, guardT_pass _ _ hl]; exact h2,
+    strictBlob_opaque_mk (Or.inl rfl) m hl⟩
+
+example : Spec.Codec.wfBlob .clientKeyExchange ⟨[0, 3, 0x30, 1, 2]⟩ = true := by decide
+
+theorem C14_total_clientKeyExchange_tlcp (b : Bytes) : unmarshalClientKeyExchange codesT b ≠ .panic :=
+  guardT_ne_panic _ _ _ (total_clientKeyExchange b)
+
+theorem C14_strict_clientKeyExchange_tlcp (b : Bytes) (m : Blob) (h : unmarshalClientKeyExchange codesT b = .ok m) :
+    Spec.Codec.shape .tlcp .clientKeyExchange b = true :=
+  strict_clientKeyExchange (framed_of_guardT (by decide) h).1
+
+theorem C14_reencode_clientKeyExchange_tlcp (b : Bytes) (h : DHdr) (m : Blob)
+    (hs : Spec.Codec.strictBlob .tlcp .clientKeyExchange b = some (h, m)) :
+    encKeyMsg codesT.tClientKeyExchange m = some b ∧ unmarshalClientKeyExchange codesT b = .ok m ∧
+      Spec.Codec.wfBlob .clientKeyExchange m = true := by
+  obtain ⟨h1, h2, h3⟩ := canon_clientKeyExchange codesT rfl hs
+  obtain ⟨hd, body, hsh⟩ := strictBlob_header hs
+  exact ⟨h1, by rw [unmarshalClientKeyExchange, guardT_of_strictHeader codesT (t := codesT.tClientKeyExchange) rfl hsh]; exact h2, h3⟩
+
+theorem C14_roundtrip_serverKeyExchange_tlcp (m : Blob) (hw : Spec.Codec.wfBlob .serverKeyExchange m = true) :
+    ∃ b, encKeyMsg codesT.tServerKeyExchange m = some b ∧ unmarshalServerKeyExchange codesT b = .ok m ∧
+      Spec.Codec.strictBlob .tlcp .serverKeyExchange b = some (zeroH, m) := by
+  have hl : m.data.length < 16777216 := by simpa [Spec.Codec.wfBlob] using hw
+  exact ⟨_, rfl, by rw [unmarshalServerKeyExchange, guardT_pass _ _ hl]; exact rt_serverKeyExchange _ m,
+    strictBlob_opaque_mk (Or.inr rfl) m hl⟩
+
+example : Spec.Codec.wfBlob .serverKeyExchange ⟨[0x30, 0x45, 2, 0x20]⟩ = true := by decide
+
+theorem C14_total_serverKeyExchange_tlcp (b : Bytes) : unmarshalServerKeyExchange codesT b ≠ .panic :=
+  guardT_ne_panic _ _ _ (total_serverKeyExchange b)
+
+theorem C14_strict_serverKeyExchange_tlcp (b : Bytes) (m : Blob) (h : unmarshalServerKeyExchange codesT b = .ok m) :
+    Spec.Codec.shape .tlcp .serverKeyExchange b = true :=
+  strict_serverKeyExchange (framed_of_guardT (by decide) h).2
+
+theorem C14_reencode_serverKeyExchange_tlcp (b : Bytes) (h : DHdr) (m : Blob)
+    (hs : Spec.Codec.strictBlob .tlcp .serverKeyExchange b = some (h, m)) :
+    encKeyMsg codesT.tServerKeyExchange m = some b ∧ unmarshalServerKeyExchange codesT b = .ok m ∧
+      Spec.Codec.wfBlob .serverKeyExchange m = true := by
+  obtain ⟨h1, h2, h3⟩ := canon_serverKeyExchange codesT rfl hs
+  obtain ⟨hd, body, hsh⟩ := strictBlob_header hs
+  exact ⟨h1, by rw [unmarshalServerKeyExchange, guardT_of_strictHeader codesT (t := codesT.tServerKeyExchange) rfl hsh]; exact h2, h3⟩
+
+/-! ### Certificate (hand-indexed) -/
+
+theorem C14_roundtrip_certificate_tlcp (m : Certificate) (hw : Spec.Codec.wfCertificate m = true) :
+    ∃ b, encCertificate codesT m = some b ∧ unmarshalCertificate codesT b = .ok m ∧
+      Spec.Codec.strictCertificate .tlcp b = some (zeroH, m) := by
+  obtain ⟨b, h1, h2, hok, hl⟩ := complete_certificate codesT rfl m hw
+  obtain ⟨hd, body, hsh⟩ := strictCertificate_header h2
+  refine ⟨b, h1, ?_, h2⟩
+  rw [unmarshalCertificate, guardT_of_strictHeader codesT (t := codesT.tCertificate) rfl hsh]
+  simp only [encCertificate, Option.some.injEq] at h1
+  subst h1
+  have := rt_certificateAt (u8 codesT.tCertificate :: be24 (encCertificateBody m).length) m hok hl
+  simpa [decCertificate, be24, show codesT.hl = 4 from rfl] using this
+
+example : Spec.Codec.wfCertificate ⟨[[0x30, 0x82, 1, 2], [0x30, 3]]⟩ = true := by decide
+
+theorem C14_total_certificate_tlcp (b : Bytes) : unmarshalCertificate codesT b ≠ .panic :=
+  guardT_ne_panic _ _ _ (total_certificateAt _ b)
+
+theorem C14_strict_certificate_tlcp (b : Bytes) (m : Certificate) (h : unmarshalCertificate codesT b = .ok m) :
+    Spec.Codec.shape .tlcp .certificate b = true := by
+  obtain ⟨hk, hf⟩ := framed_of_guardT (by decide) h
+  exact strict_certificate hk hf
+
+theorem C14_reencode_certificate_tlcp (b : Bytes) (h : DHdr) (m : Certificate)
+    (hs : Spec.Codec.strictCertificate .tlcp b = some (h, m)) :
+    encCertificate codesT m = some b ∧ unmarshalCertificate codesT b = .ok m ∧ Spec.Codec.wfCertificate m = true := by
+  obtain ⟨h1, h2, h3⟩ := canon_certificate codesT rfl rfl hs
+  obtain ⟨hd, body, hsh⟩ := strictCertificate_header hs
+  exact ⟨h1, by rw [unmarshalCertificate, guardT_of_strictHeader codesT (t := codesT.tCertificate) rfl hsh]; exact h2, h3⟩
+
+/-! ### CertificateRequest (hand-indexed) -/
+
+theorem C14_roundtrip_certificateRequest_tlcp (m : CertificateRequest) (hw : Spec.Codec.wfCertificateRequest m = true) :
+    ∃ b, encCertificateRequest codesT m = some b ∧ unmarshalCertificateRequest codesT b = .ok m ∧
+      Spec.Codec.strictCertificateRequest .tlcp b = some (zeroH, m) := by
+  obtain ⟨b, h1, h2⟩ := complete_certificateRequest codesT rfl m hw
+  obtain ⟨h3, h4, _⟩ := canon_certificateRequest codesT rfl rfl h2
+  obtain ⟨hd, body, hsh⟩ := strictCertificateRequest_header h2
+  exact ⟨b, h1, by rw [unmarshalCertificateRequest, guardT_of_strictHeader codesT (t := codesT.tCertificateRequest) rfl hsh]; exact h4, h2⟩
+
+example : Spec.Codec.wfCertificateRequest ⟨[1, 64], [[0x30, 0x10, 1], [0x30, 2]]⟩ = true := by decide
+
+theorem C14_total_certificateRequest_tlcp (b : Bytes) : unmarshalCertificateRequest codesT b ≠ .panic :=
+  guardT_ne_panic _ _ _ (total_certificateRequestAt _ (by decide) b)
+
+theorem C14_strict_certificateRequest_tlcp (b : Bytes) (m : CertificateRequest)
+    (h : unmarshalCertificateRequest codesT b = .ok m) :
+    Spec.Codec.shape .tlcp .certificateRequest b = true := by
+  obtain ⟨hk, body, hb, hl⟩ := guardT_ok (by decide) h
+  subst hb
+  apply shape_tlcp_mk _ _ hl
+  exact decCertificateRequestAt_shape .tlcp (u8 codesT.tCertificateRequest :: be24 body.length) body hk
+
+theorem C14_reencode_certificateRequest_tlcp (b : Bytes) (h : DHdr) (m : CertificateRequest)
+    (hs : Spec.Codec.strictCertificateRequest .tlcp b = some (h, m)) :
+    encCertificateRequest codesT m = some b ∧ unmarshalCertificateRequest codesT b = .ok m ∧
+      Spec.Codec.wfCertificateRequest m = true := by
+  obtain ⟨h1, h2, h3⟩ := canon_certificateRequest codesT rfl rfl hs
+  obtain ⟨hd, body, hsh⟩ := strictCertificateRequest_header hs
+  exact ⟨h1, by rw [unmarshalCertificateRequest, guardT_of_strictHeader codesT (t := codesT.tCertificateRequest) rfl hsh]; exact h2, h3⟩
+
+/-! ## DTLCP (12-byte header; a message object is header fields × body fields)
+
+`wfDHdr h n`: the object describes a complete message (`fragment_offset = 0`, `fragment_length`
+0 or the body length `n`); the decoded header then reads `⟨seq, 0, n⟩`. -/
+
+section Dtlcp
+open Gotlcp.Model.CodecDtlcp Gotlcp.Lemmas.CodecDtlcp
+
+theorem ready (t : Nat) (h : codesD.complete.contains t = true) : Ready codesD t := ⟨rfl, h⟩
+
+/-! ### Finished -/
+
+theorem C14_roundtrip_finished_dtlcp (h : DHdr) (m : Blob) (hm : Spec.Codec.wfBlob .finished m = true)
+    (hw : Spec.Codec.wfDHdr h m.data.length = true) :
+    ∃ b, encFinished codesD h m = some b ∧ decFinished codesD b = .ok (⟨h.seq, 0, m.data.length⟩, m) ∧
+      Spec.Codec.strictBlob .dtlcp .finished b = some (⟨h.seq, 0, m.data.length⟩, m) := by
+  have hlen : m.data.length = 12 := by simpa [Spec.Codec.wfBlob] using hm
+  obtain ⟨e1, e2⟩ := Lemmas.CodecDtlcp.rt_finished codesD (ready _ (by decide)) h m hw (by rw [hlen]; decide)
+  exact ⟨_, e1, e2, Lemmas.CodecDtlcp.complete_finished codesD rfl h.seq m hm⟩
+
+example : Spec.Codec.wfBlob .finished ⟨[1, 2, 3, 4, 5, 6, 7, 8, 9, 10, 11, 12]⟩ = true ∧
+    Spec.Codec.wfDHdr ⟨(0, 7), 0, 0⟩ 12 = true := by decide
+
+theorem C14_total_finished_dtlcp (b : Bytes) : decFinished codesD b ≠ .panic :=
+  Lemmas.CodecDtlcp.total_finished codesD (ready _ (by decide)) b
+
+theorem C14_strict_finished_dtlcp (b : Bytes) (x : DHdr × Blob) (h : decFinished codesD b = .ok x) :
+    Spec.Codec.shape .dtlcp .finished b = true :=
+  Lemmas.CodecDtlcp.strict_finished codesD (ready _ (by decide)) h
+
+theorem C14_reencode_finished_dtlcp (b : Bytes) (h : DHdr) (m : Blob)
+    (hs : Spec.Codec.strictBlob .dtlcp .finished b = some (h, m)) :
+    encFinished codesD h m = some b ∧ decFinished codesD b = .ok (h, m) ∧ Spec.Codec.wfBlob .finished m = true ∧
+      Spec.Codec.wfDHdr h m.data.length = true :=
+  Lemmas.CodecDtlcp.canon_finished codesD (ready _ (by decide)) rfl (by decide) hs
+
+/-! ### ServerHelloDone -/
+
+theorem C14_roundtrip_serverHelloDone_dtlcp (h : DHdr) :
+    ∃ b, encServerHelloDone codesD h = some b ∧ decServerHelloDone codesD b = .ok (⟨h.seq, 0, 0⟩, ()) ∧
+      Spec.Codec.strictServerHelloDone .dtlcp b = some (⟨h.seq, 0, 0⟩, ()) :=
+  ⟨_, encServerHelloDone_eq codesD h, Lemmas.CodecDtlcp.rt_serverHelloDone codesD (ready _ (by decide)) h,
+    Lemmas.CodecDtlcp.complete_serverHelloDone codesD rfl h.seq⟩
+
+theorem C14_total_serverHelloDone_dtlcp (b : Bytes) : decServerHelloDone codesD b ≠ .panic :=
+  Lemmas.CodecDtlcp.total_serverHelloDone codesD (ready _ (by decide)) b
+
+theorem C14_strict_serverHelloDone_dtlcp (b : Bytes) (x : DHdr × Unit) (h : decServerHelloDone codesD b = .ok x) :
+    Spec.Codec.shape .dtlcp .serverHelloDone b = true :=
+  Lemmas.CodecDtlcp.strict_serverHelloDone codesD (ready _ (by decide)) h
+
+theorem C14_reencode_serverHelloDone_dtlcp (b : Bytes) (h : DHdr)
+    (hs : Spec.Codec.strictServerHelloDone .dtlcp b = some (h, ())) :
+    encServerHelloDone codesD h = some b ∧ decServerHelloDone codesD b = .ok (h, ()) ∧
+      Spec.Codec.wfDHdr h 0 = true :=
+  Lemmas.CodecDtlcp.canon_serverHelloDone codesD (ready _ (by decide)) rfl hs
+
+/-! ### CertificateVerify -/
+
+theorem C14_roundtrip_certificateVerify_dtlcp (h : DHdr) (m : Blob)
+    (hm : Spec.Codec.wfBlob .certificateVerify m = true) (hw : Spec.Codec.wfDHdr h (2 + m.data.length) = true) :
+    ∃ b, encCertificateVerify codesD h m = some b ∧
+      decCertificateVerify codesD b = .ok (⟨h.seq, 0, 2 + m.data.length⟩, m) ∧
+      Spec.Codec.strictBlob .dtlcp .certificateVerify b = some (⟨h.seq, 0, 2 + m.data.length⟩, m) := by
+  have hl : m.data.length < 65536 := by simpa [Spec.Codec.wfBlob] using hm
+  obtain ⟨e1, e2⟩ := Lemmas.CodecDtlcp.rt_certificateVerify codesD (ready _ (by decide)) h m hl hw
+  exact ⟨_, e1, e2, Lemmas.CodecDtlcp.complete_certificateVerify codesD rfl h.seq m hm⟩
+
+theorem C14_total_certificateVerify_dtlcp (b : Bytes) : decCertificateVerify codesD b ≠ .panic :=
+  Lemmas.CodecDtlcp.total_certificateVerify codesD (ready _ (by decide)) b
+
+theorem C14_strict_certificateVerify_dtlcp (b : Bytes) (x : DHdr × Blob) (h : decCertificateVerify codesD b = .ok x) :
+    Spec.Codec.shape .dtlcp .certificateVerify b = true :=
+  Lemmas.CodecDtlcp.strict_certificateVerify codesD (ready _ (by decide)) h
+
+theorem C14_reencode_certificateVerify_dtlcp (b : Bytes) (h : DHdr) (m : Blob)
+    (hs : Spec.Codec.strictBlob .dtlcp .certificateVerify b = some (h, m)) :
+    encCertificateVerify codesD h m = some b ∧ decCertificateVerify codesD b = .ok (h, m) ∧
+      Spec.Codec.wfBlob .certificateVerify m = true ∧ Spec.Codec.wfDHdr h (2 + m.data.length) = true :=
+  Lemmas.CodecDtlcp.canon_certificateVerify codesD (ready _ (by decide)) rfl hs
+
+/-! ### ClientKeyExchange, ServerKeyExchange -/
+
+theorem C14_roundtrip_clientKeyExchange_dtlcp (h : DHdr) (m : Blob)
+    (hw : Spec.Codec.wfDHdr h m.data.length = true) :
+    ∃ b, encKeyMsg codesD.tClientKeyExchange h m = some b ∧
+      decClientKeyExchange codesD b = .ok (⟨h.seq, 0, m.data.length⟩, m) ∧
+      Spec.Codec.strictBlob .dtlcp .clientKeyExchange b = some (⟨h.seq, 0, m.data.length⟩, m) := by
+  obtain ⟨e1, e2⟩ := Lemmas.CodecDtlcp.rt_clientKeyExchange codesD (ready _ (by decide)) h m hw
+  exact ⟨_, e1, e2, Lemmas.CodecDtlcp.strictBlob_opaque_mk (Or.inl rfl) h.seq m (wfDHdr_lt hw)⟩
+
+theorem C14_total_clientKeyExchange_dtlcp (b : Bytes) : decClientKeyExchange codesD b ≠ .panic :=
+  Lemmas.CodecDtlcp.total_clientKeyExchange codesD (ready _ (by decide)) b
+
+theorem C14_strict_clientKeyExchange_dtlcp (b : Bytes) (x : DHdr × Blob) (h : decClientKeyExchange codesD b = .ok x) :
+    Spec.Codec.shape .dtlcp .clientKeyExchange b = true :=
+  strict_opaque codesD (ready _ (by decide)) (Or.inr (Or.inl rfl)) h
+
+theorem C14_reencode_clientKeyExchange_dtlcp (b : Bytes) (h : DHdr) (m : Blob)
+    (hs : Spec.Codec.strictBlob .dtlcp .clientKeyExchange b = some (h, m)) :
+    encKeyMsg codesD.tClientKeyExchange h m = some b ∧ decClientKeyExchange codesD b = .ok (h, m) ∧
+      Spec.Codec.wfBlob .clientKeyExchange m = true ∧ Spec.Codec.wfDHdr h m.data.length = true :=
+  Lemmas.CodecDtlcp.canon_clientKeyExchange codesD (ready _ (by decide)) rfl hs
+
+theorem C14_roundtrip_serverKeyExchange_dtlcp (h : DHdr) (m : Blob)
+    (hw : Spec.Codec.wfDHdr h m.data.length = true) :
+    ∃ b, encKeyMsg codesD.tServerKeyExchange h m = some b ∧
+      decServerKeyExchange codesD b = .ok (⟨h.seq, 0, m.data.length⟩, m) ∧
+      Spec.Codec.strictBlob .dtlcp .serverKeyExchange b = some (⟨h.seq, 0, m.data.length⟩, m) := by
+  obtain ⟨e1, e2⟩ := Lemmas.CodecDtlcp.rt_serverKeyExchange codesD (ready _ (by decide)) h m hw
+  exact ⟨_, e1, e2, Lemmas.CodecDtlcp.strictBlob_opaque_mk (Or.inr rfl) h.seq m (wfDHdr_lt hw)⟩
+
+theorem C14_total_serverKeyExchange_dtlcp (b : Bytes) : decServerKeyExchange codesD b ≠ .panic :=
+  Lemmas.CodecDtlcp.total_serverKeyExchange codesD (ready _ (by decide)) b
+
+theorem C14_strict_serverKeyExchange_dtlcp (b : Bytes) (x : DHdr × Blob) (h : decServerKeyExchange codesD b = .ok x) :
+    Spec.Codec.shape .dtlcp .serverKeyExchange b = true :=
+  strict_opaque codesD (ready _ (by decide)) (Or.inl rfl) h
+
+theorem C14_reencode_serverKeyExchange_dtlcp (b : Bytes) (h : DHdr) (m : Blob)
+    (hs : Spec.Codec.strictBlob .dtlcp .serverKeyExchange b = some (h, m)) :
+    encKeyMsg codesD.tServerKeyExchange h m = some b ∧ decServerKeyExchange codesD b = .ok (h, m) ∧
+      Spec.Codec.wfBlob .serverKeyExchange m = true ∧ Spec.Codec.wfDHdr h m.data.length = true :=
+  Lemmas.CodecDtlcp.canon_serverKeyExchange codesD (ready _ (by decide)) rfl hs
+
+/-! ### Certificate, CertificateRequest -/
+
+theorem C14_roundtrip_certificate_dtlcp (h : DHdr) (m : Certificate) (hm : Spec.Codec.wfCertificate m = true)
+    (hw : Spec.Codec.wfDHdr h (encCertificateBody m).length = true) :
+    ∃ b, encCertificate codesD h m = some b ∧
+      Model.CodecDtlcp.decCertificate codesD b = .ok (⟨h.seq, 0, (encCertificateBody m).length⟩, m) ∧
+      Spec.Codec.strictCertificate .dtlcp b = some (⟨h.seq, 0, (encCertificateBody m).length⟩, m) := by
+  obtain ⟨e1, e2⟩ := Lemmas.CodecDtlcp.rt_certificate codesD (ready _ (by decide)) h m hm hw
+  exact ⟨_, e1, e2, Lemmas.CodecDtlcp.complete_certificate codesD rfl h.seq m hm⟩
+
+theorem C14_total_certificate_dtlcp (b : Bytes) : Model.CodecDtlcp.decCertificate codesD b ≠ .panic :=
+  Lemmas.CodecDtlcp.total_certificate codesD (ready _ (by decide)) b
+
+theorem C14_strict_certificate_dtlcp (b : Bytes) (x : DHdr × Certificate) (h : Model.CodecDtlcp.decCertificate codesD b = .ok x) :
+    Spec.Codec.shape .dtlcp .certificate b = true :=
+  Lemmas.CodecDtlcp.strict_certificate codesD (ready _ (by decide)) h
+
+theorem C14_reencode_certificate_dtlcp (b : Bytes) (h : DHdr) (m : Certificate)
+    (hs : Spec.Codec.strictCertificate .dtlcp b = some (h, m)) :
+    encCertificate codesD h m = some b ∧ Model.CodecDtlcp.decCertificate codesD b = .ok (h, m) ∧
+      Spec.Codec.wfCertificate m = true ∧ Spec.Codec.wfDHdr h (encCertificateBody m).length = true :=
+  Lemmas.CodecDtlcp.canon_certificate codesD (ready _ (by decide)) rfl hs
+
+theorem C14_roundtrip_certificateRequest_dtlcp (h : DHdr) (m : CertificateRequest)
+    (hm : Spec.Codec.wfCertificateRequest m = true)
+    (hw : Spec.Codec.wfDHdr h (encCertificateRequestBody m).length = true) :
+    ∃ b, encCertificateRequest codesD h m = some b ∧
+      Model.CodecDtlcp.decCertificateRequest codesD b = .ok (⟨h.seq, 0, (encCertificateRequestBody m).length⟩, m) ∧
+      Spec.Codec.strictCertificateRequest .dtlcp b =
+        some (⟨h.seq, 0, (encCertificateRequestBody m).length⟩, m) := by
+  obtain ⟨e1, e2⟩ := Lemmas.CodecDtlcp.rt_certificateRequest codesD (ready _ (by decide)) h m hm hw
+  exact ⟨_, e1, e2, Lemmas.CodecDtlcp.complete_certificateRequest codesD rfl h.seq m hm⟩
+
+theorem C14_total_certificateRequest_dtlcp (b : Bytes) : Model.CodecDtlcp.decCertificateRequest codesD b ≠ .panic :=
+  Lemmas.CodecDtlcp.total_certificateRequest codesD (ready _ (by decide)) b
+
+theorem C14_strict_certificateRequest_dtlcp (b : Bytes) (x : DHdr × CertificateRequest)
+    (h : Model.CodecDtlcp.decCertificateRequest codesD b = .ok x) : Spec.Codec.shape .dtlcp .certificateRequest b = true :=
+  Lemmas.CodecDtlcp.strict_certificateRequest codesD (ready _ (by decide)) h
+
+theorem C14_reencode_certificateRequest_dtlcp (b : Bytes) (h : DHdr) (m : CertificateRequest)
+    (hs : Spec.Codec.strictCertificateRequest .dtlcp b = some (h, m)) :
+    encCertificateRequest codesD h m = some b ∧ Model.CodecDtlcp.decCertificateRequest codesD b = .ok (h, m) ∧
+      Spec.Codec.wfCertificateRequest m = true ∧
+      Spec.Codec.wfDHdr h (encCertificateRequestBody m).length = true :=
+  Lemmas.CodecDtlcp.canon_certificateRequest codesD (ready _ (by decide)) rfl hs
+
+/-! ### HelloVerifyRequest -/
+
+theorem C14_roundtrip_helloVerifyRequest_dtlcp (h : DHdr) (m : HelloVerifyRequest)
+    (hm : Spec.Codec.wfHelloVerifyRequest m = true) (hw : Spec.Codec.wfDHdr h (3 + m.cookie.length) = true) :
+    ∃ b, encHelloVerifyRequest codesD h m = some b ∧
+      decHelloVerifyRequest codesD b = .ok (⟨h.seq, 0, 3 + m.cookie.length⟩, m) ∧
+      Spec.Codec.strictHelloVerifyRequest b = some (⟨h.seq, 0, 3 + m.cookie.length⟩, m) := by
+  have hl : m.cookie.length < 256 := by simpa [Spec.Codec.wfHelloVerifyRequest] using hm
+  obtain ⟨e1, e2⟩ := Lemmas.CodecDtlcp.rt_helloVerifyRequest codesD (ready _ (by decide)) h m hl hw
+  exact ⟨_, e1, e2, Lemmas.CodecDtlcp.complete_helloVerifyRequest codesD rfl h.seq m hm⟩
+
+example : Spec.Codec.wfHelloVerifyRequest ⟨(1, 1), [1, 2, 3, 4]⟩ = true ∧ Spec.Codec.wfDHdr ⟨(0, 1), 0, 7⟩ 7 = true := by
+  decide
+
+theorem C14_total_helloVerifyRequest_dtlcp (b : Bytes) : decHelloVerifyRequest codesD b ≠ .panic :=
+  Lemmas.CodecDtlcp.total_helloVerifyRequest codesD (ready _ (by decide)) b
+
+theorem C14_strict_helloVerifyRequest_dtlcp (b : Bytes) (x : DHdr × HelloVerifyRequest)
+    (h : decHelloVerifyRequest codesD b = .ok x) : Spec.Codec.shape .dtlcp .helloVerifyRequest b = true :=
+  Lemmas.CodecDtlcp.strict_helloVerifyRequest codesD (ready _ (by decide)) h
+
+theorem C14_reencode_helloVerifyRequest_dtlcp (b : Bytes) (h : DHdr) (m : HelloVerifyRequest)
+    (hs : Spec.Codec.strictHelloVerifyRequest b = some (h, m)) :
+    encHelloVerifyRequest codesD h m = some b ∧ decHelloVerifyRequest codesD b = .ok (h, m) ∧
+      Spec.Codec.wfHelloVerifyRequest m = true ∧ Spec.Codec.wfDHdr h (3 + m.cookie.length) = true :=
+  Lemmas.CodecDtlcp.canon_helloVerifyRequest codesD (ready _ (by decide)) rfl hs
+
+end Dtlcp
+
 end Gotlcp.Props.C14
